@@ -38,7 +38,7 @@ def run_part(ctx):
     seeds = [ctx.seed] if q else [ctx.seed, ctx.seed + 1, ctx.seed + 2]
     for fam in FAMILIES:
         for sd in seeds:
-            rc, out, err = vlib.run([drv, "c18", "-case", fam, "-seed", str(sd)], env=vlib.goenv(), timeout=300)
+            rc, out, err = U.run_capped([drv, "c18", "-case", fam, "-seed", str(sd)], timeout=300)
             ctx.cov["evaluations"] += 1
             if rc == 3 or "HARNESS-ERROR" in err:
                 raise vlib.Inconclusive("udpnat c18 %s: harness error: %s" % (fam, err[-1500:]))
